@@ -7,6 +7,7 @@ package c07
 
 import (
 	"fmt"
+	"os"
 	"net"
 	"sort"
 	"strings"
@@ -28,6 +29,7 @@ type tables struct {
 	ksn      []*state.KindServiceName
 	topo     []*state.VerifUpstreamDownstream
 	vips     []state.ServiceVirtualIP
+	gwsvc    []*structs.GatewayService
 	free     []state.FreeVirtualIP
 	usage    map[string]int
 	configs  []structs.ConfigEntry
@@ -51,6 +53,8 @@ func load(s *state.Store) *tables {
 			t.coords = append(t.coords, x)
 		case *state.KindServiceName:
 			t.ksn = append(t.ksn, x)
+		case *structs.GatewayService:
+			t.gwsvc = append(t.gwsvc, x)
 		case *state.VerifUpstreamDownstream:
 			t.topo = append(t.topo, x)
 		case state.ServiceVirtualIP:
@@ -249,6 +253,9 @@ func check(s *state.Store, t *tables) []finding {
 		}
 	}
 
+	// ---- gateway-to-service links == recomputation (c07_gateway_test.go)
+	checkGatewayServices(t, add)
+
 	// ---- virtual IPs
 	byIP := map[string]string{}
 	assigned := map[string]state.ServiceVirtualIP{}
@@ -405,6 +412,12 @@ func TestZZVerifC07(t *testing.T) {
 			after := load(r.State())
 			run.Count("steps")
 			run.Distinct("class", c.Class)
+			if os.Getenv("VERIF_C07_DEBUG") == fmt.Sprint(h) {
+				fmt.Printf("DEBUG h=%d step=%d %s\n", h, i, trunc(c.Desc, 300))
+				for _, r := range after.gwsvc {
+					fmt.Printf("   row %s|%s|%d wild=%v kind=%q ci=%d mi=%d\n", r.Gateway.Name, r.Service.Name, r.Port, r.FromWildcard, r.ServiceKind, r.CreateIndex, r.ModifyIndex)
+				}
+			}
 			classify(before, after, situations)
 			for _, f := range check(r.State(), after) {
 				if reported[f.key] {
@@ -433,6 +446,10 @@ func TestZZVerifC07(t *testing.T) {
 		r.Close()
 	}
 	run.CountN("walks-with-gateway-advertised-vip", tgwAdvertising)
+	run.CountN("gateway-services-rows-judged", gwRowsSeen)
+	run.CountN("gateway-services-wildcard-rows-judged", gwWildcardRowsSeen)
+	run.Floor("gateway-services-rows-judged", 2000)
+	run.Floor("gateway-services-wildcard-rows-judged", 200)
 	for _, s := range []string{"last-instance-removed", "node-removed-with-services", "two-proxies-share-upstream", "proxy-removed-after-service", "node-renamed-by-id", "vip-assigned", "vip-freed"} {
 		run.Floor("situation:"+s, 5)
 	}
